@@ -12,10 +12,13 @@
    (2) MV.C12.RegModel: the sequential registry with cache, flags and process kinds; tie T1 through the
        public prc API.
    (3) MV.C12.AddrModel: Derivation / Equal / URL over byte strings; tie T1.
+   (4) MV.C12.EqModel: reference objects with their hidden cache field, scripts of constructors, registry
+       operations (Register with aliases, Unregister, GetProcess with resolvers, self-termination), views and
+       Equal sweeps; tie T1 on real *prc.ProcessId objects put into every combination of cache states.
    Quantification: every schedule of every length with any number of threads ([reach]); every operation
    sequence; every string. *)
 From MV Require Import Lib.ListX Lib.Sched.
-From MV Require C12.RegModel C12.RegProofs.
+From MV Require C12.RegModel C12.RegProofs C12.EqModel C12.EqProofs.
 From MV Require Import C12.AddrModel C12.AddrProofs C12.ConcModel C12.ConcProofs.
 Close Scope string_scope.
 Open Scope Z_scope.
@@ -243,3 +246,67 @@ Example C12_equal_example :
   Equal (Some {| phys := "n1"; logic := "/a" |}) (Some {| phys := "n2"; logic := "/a" |}) = false /\
   url_text {| phys := "127.0.0.1:8080"; logic := "/user/a" |} = Some "minotaur://127.0.0.1:8080/user/a"%string.
 Proof. repeat split; vm_compute; reflexivity. Qed.
+
+(* ================= (4) references and their hidden cache: Equal reads the address pair only ================= *)
+(* Equal is an equivalence on non-nil references (nil is equal to nothing, C12_equal_nil) ... *)
+Theorem C12_equal_reflexive : forall a, Equal (Some a) (Some a) = true.
+Proof. exact EqProofs.equal_refl. Qed.
+Print Assumptions C12_equal_reflexive.
+
+Theorem C12_equal_symmetric : forall a b, Equal a b = Equal b a.
+Proof. exact EqProofs.equal_sym. Qed.
+Print Assumptions C12_equal_symmetric.
+
+Theorem C12_equal_transitive : forall a b c, Equal a b = true -> Equal b c = true -> Equal a c = true.
+Proof. exact EqProofs.equal_trans. Qed.
+Print Assumptions C12_equal_transitive.
+
+(* ... that coincides with equality of the (node, local address) pair, nil included: the verdict is true exactly
+   for two non-nil references carrying one and the same pair; false exactly when a component differs *)
+Theorem C12_equal_is_address_equality : forall a b, Equal a b = true <-> exists x, a = Some x /\ b = Some x.
+Proof. exact EqProofs.equal_true_iff. Qed.
+Print Assumptions C12_equal_is_address_equality.
+
+Theorem C12_equal_false_iff : forall a b,
+  Equal (Some a) (Some b) = false <-> phys a <> phys b \/ logic a <> logic b.
+Proof. exact EqProofs.equal_false_iff. Qed.
+Print Assumptions C12_equal_false_iff.
+
+(* Equal cannot tell apart two references of one address pair (distinct objects, clones, decoded copies) *)
+Theorem C12_equal_congruence : forall a a' b, Equal (Some a) (Some a') = true -> Equal (Some a) b = Equal (Some a') b.
+Proof. exact EqProofs.equal_congr. Qed.
+Print Assumptions C12_equal_congruence.
+
+(* the matrix of a sweep over a reference table is Equal of the two table entries *)
+Theorem C12_sweep_is_equal_matrix : forall refs i j, (i < List.length refs)%nat -> (j < List.length refs)%nat ->
+  nth (i * List.length refs + j)%nat (EqModel.sweep refs) false = Equal (nth i refs None) (nth j refs None).
+Proof. exact EqProofs.sweep_spec. Qed.
+Print Assumptions C12_sweep_is_equal_matrix.
+
+(* Register / Unregister / GetProcess / self-termination — everything that moves the cache of a reference between
+   never-resolved, resolved (own or shared process) and stale — never write a reference's address *)
+Theorem C12_registry_ops_keep_references : forall w s o,
+  EqModel.addr_op o = false -> EqModel.erefs (fst (EqModel.step w s o)) = EqModel.erefs s.
+Proof. exact EqProofs.step_cache_op. Qed.
+Print Assumptions C12_registry_ops_keep_references.
+
+(* Every address-level output of every script (addresses of new / cloned / derived / decoded references, views =
+   getters + URL + Clone + Derivation, Equal over all ordered pairs) equals the output of the same script with all
+   registry operations erased — from any two states that agree on the reference table, whatever the caches, the
+   registry, the terminated flags, the own node and the resolver: Equal & co. are functions of the addresses only. *)
+Theorem C12_address_ops_ignore_cache_state : forall w1 w2 ops s1 s2,
+  EqModel.erefs s1 = EqModel.erefs s2 ->
+  EqModel.addr_outs ops (EqModel.run w1 s1 ops) = EqModel.run w2 s2 (filter EqModel.addr_op ops).
+Proof. exact EqProofs.addr_ops_ignore_cache. Qed.
+Print Assumptions C12_address_ops_ignore_cache_state.
+
+(* non-vacuity: the model reaches the cache states in question — two references of different addresses on one
+   remote node both cache the node's single process, a third caches a terminated process — and Equal is unmoved *)
+Example C12_equal_shared_cache_example :
+  let w := {| EqModel.wlocal := "n1"%string; EqModel.wres := EqModel.RNode |} in
+  let s := fold_left (fun s o => fst (EqModel.step w s o)) EqProofs.shared_cache_script EqModel.einit in
+  EqModel.ecache s = [Some (EqModel.PN "n2"); Some (EqModel.PN "n2"); Some (EqModel.PL 7)] /\
+  EqModel.flagged s (EqModel.PL 7) = true /\
+  last (EqModel.run w EqModel.einit EqProofs.shared_cache_script) EqModel.XBad =
+    EqModel.XMat [true; false; false;  false; true; false;  false; false; true].
+Proof. exact EqProofs.shared_cache_witness. Qed.
